@@ -55,3 +55,22 @@ Fixpoint mixed_unit_list (val : Q) (units : list Q) (acc : list Q) : option (lis
   end.
 
 Definition qsum (l : list Q) : Q := fold_right Qplus 0 l.
+
+(* core/mixed_units.nbt  _clean_units = unique |> sort_by_key(_negate)  and
+   _unit_list(units, value) = _mixed_unit_list(value, _clean_units(units), []).
+   `unique` (core/lists.nbt) keeps first occurrences; after it all sizes are distinct, so the
+   merge sort by the negated size of the library and the insertion sort below give the same list. *)
+Fixpoint q_unique_acc (acc l : list Q) : list Q :=
+  match l with
+  | [] => acc
+  | x :: r => if existsb (Qeq_bool x) acc then q_unique_acc acc r else q_unique_acc (acc ++ [x]) r
+  end.
+Fixpoint insert_desc (x : Q) (l : list Q) : list Q :=
+  match l with
+  | [] => [x]
+  | y :: r => if Qle_bool y x then x :: l else y :: insert_desc x r
+  end.
+Definition sort_desc (l : list Q) : list Q := fold_right insert_desc [] l.
+Definition clean_units (units : list Q) : list Q := sort_desc (q_unique_acc [] units).
+Definition unit_list (units : list Q) (value : Q) : option (list Q) :=
+  mixed_unit_list value (clean_units units) [].
